@@ -47,6 +47,11 @@ REQUESTS = [
     ('lazy_exc', 'lazy', [('n', 4), ('fail_after', 1), ('how', 'exc')]),
     ('lazy_exc0', 'lazy', [('n', 4), ('fail_after', 0), ('how', 'exc')]),
     ('lazy_always', 'lazy', [('n', 4), ('fail_after', 1), ('how', 'always')]),
+    # the method picks the protocol of its own answer (a fresh instance per request)
+    ('negotiate_json', 'negotiate', [('fmt', 'json'), ('how', 'ok')]),
+    ('negotiate_xml', 'negotiate', [('fmt', 'xml'), ('how', 'ok')]),
+    ('negotiate_yaml_fault', 'negotiate', [('fmt', 'yaml'), ('how', 'fault')]),
+    ('negotiate_json_fault', 'negotiate', [('fmt', 'json'), ('how', 'fault')]),
     ('ded_toolong', 'dedicated', [('which', 'toolong')]),
     ('ded_notfound', 'dedicated', [('which', 'notfound')]),
     ('ded_notallowed', 'dedicated', [('which', 'notallowed')]),
@@ -170,6 +175,27 @@ def judge(res, case, r, rec, maxlen, declared, blen, full_chunks, R):
             ok = False
         if not ok:
             v('content_length_mismatch', 'Content-Length %r but %d body bytes' % (cls_[0], sum(len(c) for c in r.chunks)))
+    # an answer whose protocol the method chose itself is a document of that protocol
+    if case['req'].startswith('negotiate') and r.exc is None and r.aborted_after is None and all(isinstance(c, bytes) for c in r.chunks) \
+            and rec.calls and rec.calls[0][0] == 'negotiate' and tuple(rec.calls[0][1])[:1] == (case['req'].split('_')[1],):
+        # (the method ran with the format that was sent: a truncated request can still parse, as something else)
+        fmt = case['req'].split('_')[1]
+        R.count('negotiated_answers')
+        try:
+            if fmt == 'json':
+                import json
+                doc = json.loads(r.body.decode('utf8'))
+            elif fmt == 'yaml':
+                import yaml
+                doc = yaml.safe_load(r.body.decode('utf8'))
+            else:
+                from lxml import etree
+                doc = etree.tostring(etree.fromstring(r.body)).decode()
+            if 'Negotiated' not in str(doc) and 'answer in %s' % fmt not in str(doc):
+                v('negotiated_answer_content', 'answer negotiated as %s does not carry the result: %r' % (fmt, r.body[:100]))
+        except Exception as e:
+            v('negotiated_answer_not_%s' % fmt, 'answer negotiated as %s is not a %s document (%s): %r status=%r calls=%r events=%s' % (
+                fmt, fmt, type(e).__name__, r.body[:100], r.status, rec.calls[:3], ' '.join(ev.names())[:300]))
     # request-size limit
     nread = r.input.nread if r.input is not None else 0
     if nread > maxlen:
